@@ -205,6 +205,10 @@ Definition notice_of_cancellation_s (cond : Z) : SM bool :=
       prepare_eof_pdu ck ;;; handle_eof_sent true ;;; ret true
   end.
 
+(* what _declare_fault returns to its caller: whether the configured handler is IGNORE_ERROR *)
+Definition fault_ignored (l : lcfg) (cond : Z) : bool :=
+  match get_fault_handler (l_faults l) cond with Some h => h =? FH_IGNORE | None => false end.
+
 Definition declare_fault_s (cond : Z) : SM unit :=
   l <- gets s_cfg ;;
   tid <- gq q_tid ;; pr <- gq q_progress ;;
@@ -356,12 +360,17 @@ Definition handle_positive_ack_procedures_s : SM unit :=
     r <- srcfg_or_assert ;; n <- snow ;;
     if negb (timed_out n tm) then ret tt else
     cnt <- gq q_ack_counter ;;
-    if r_ack_limit r <=? cnt + 1 then declare_fault_s C_POS_ACK_LIMIT
-    else
+    let resend : SM unit :=
       setq (fun q => q <| q_ack_timer := Some (n, snd tm) |> <| q_ack_counter := cnt + 1 |>) ;;;
       pr <- gq q_progress ;;
       ck <- checksum_calculation pr ;;        (* F20 repair: the checksum of the bytes sent, as in the EOF it repeats *)
-      prepare_eof_pdu ck
+      prepare_eof_pdu ck in
+    if r_ack_limit r <=? cnt + 1 then
+      (* an ignored limit fault lets the procedure carry on, so it is not declared again by every call (F34 repair) *)
+      declare_fault_s C_POS_ACK_LIMIT ;;;
+      l <- gets s_cfg ;;
+      if fault_ignored l C_POS_ACK_LIMIT then resend else ret tt
+    else resend
   end.
 
 (* _handle_waiting_for_ack *)
@@ -392,7 +401,12 @@ Definition handle_wait_for_finish (pkt : option pdu) : SM unit :=
   | _ =>
       t <- gq q_check_timer ;; n <- snow ;;
       match t with
-      | Some tm => when (timed_out n tm) (declare_fault_s C_CHECK_LIMIT)
+      | Some tm =>
+          when (timed_out n tm)
+            (declare_fault_s C_CHECK_LIMIT ;;;
+             l <- gets s_cfg ;;
+             (* ignored: wait for another interval instead of declaring it again with every call (F34 repair) *)
+             when (fault_ignored l C_CHECK_LIMIT) (setq (fun q => q <| q_check_timer := Some (n, snd tm) |>)))
       | None => ret tt
       end
   end.
